@@ -369,11 +369,18 @@ def with_fault(rng, scn, total_in, total_out):
         lid_future = rng.randrange(1, n_open)
         stale.append((rng.randrange(1, 10), pkt(rng.choice([b"OKAY", b"WRTE", b"OKAY"]), rng.randrange(1, 50), lid_future, b"STALE" if rng.random() < 0.5 else b"")))
     s["envs"][0]["sim"]["stray"] = list(s["envs"][0]["sim"].get("stray", [])) + stale
+    middle = []
+    if rng.random() < 0.35:
+        # the device is still down at the first reconnect attempt: connect() raises, the object must report itself unavailable
+        # and refuse operations; only then the healthy reconnect
+        down = rng.choice([dict(sim=dict(silent_after=0), dt=1), dict(sim={}, dt=1, cfail=True), dict(sim=dict(auth=dict(accept=None, pubkey_ok=True)), dt=1)])
+        s["envs"].append(down)
+        middle = [dict(op="connect", rt=1024, tt=1024, at=1024), dict(op="shell", cmd=b"echo", decode=False)]
     s["envs"].append(healthy)
     replay_ops = [copy.deepcopy(o) for o in scn["ops"]]
-    s["ops"] = scn["ops"] + ([dict(op="close")] if rng.random() < 0.6 else []) + replay_ops
+    s["ops"] = scn["ops"] + ([dict(op="close")] if rng.random() < 0.6 else []) + middle + replay_ops
     s["fault"] = (side, off, kind)
-    s["n_before"] = len(scn["ops"])
+    s["n_before"] = len(s["ops"]) - len(replay_ops)
     return s
 
 
